@@ -1016,3 +1016,19 @@ ref_sm3_selfcheck()
         }
         return true;
 }
+
+// inner digest of HMAC: H((K' xor ipad) || msg), K' = key, or H(key) when the key is longer than a block
+Bytes ref_hmac_inner(HashId h, const uint8_t *key, size_t key_len, const uint8_t *msg, size_t len)
+{
+        const size_t B = hash_block(h);
+        Bytes k(key, key + key_len);
+        if (k.size() > B)
+                k = ref_hash(h, k.data(), k.size());
+        k.resize(B, 0);
+        Bytes in(B + len);
+        for (size_t i = 0; i < B; i++)
+                in[i] = (uint8_t) (k[i] ^ 0x36);
+        if (len)
+                memcpy(in.data() + B, msg, len);
+        return ref_hash(h, in.data(), in.size());
+}
